@@ -186,7 +186,12 @@ class Scenario:
         raise NotImplementedError
 
     def check(self, world):
-        """state invariants / probes; returns list of (signature, detail)"""
+        """state invariants / probes run after every transition; returns list
+        of (signature, detail)"""
+        return []
+
+    def check_state(self, world):
+        """expensive state-only probes, run once per expanded state"""
         return []
 
     def prefix_ok(self, op):
@@ -218,11 +223,15 @@ class Scenario:
 
 
 _SCEN = None
+_PROP = "?"
 
 
 def _cap(v, per_prop=4):
     """keep the first few violations of each property"""
     out, n = [], collections.Counter()
+    v = [((_PROP + "/" + sig) if sig.startswith(("harness-error",
+                                                  "check-error")) else sig, d)
+         for sig, d in v]
     for sig, detail in v:
         p = sig.split("/")[0]
         n[p] += 1
@@ -231,9 +240,10 @@ def _cap(v, per_prop=4):
     return out
 
 
-def _set_scenario(s):
-    global _SCEN
+def _set_scenario(s, prop="?"):
+    global _SCEN, _PROP
     _SCEN = s
+    _PROP = prop
 
 
 def _expand(task):
@@ -249,6 +259,15 @@ def _expand(task):
     if check_self:
         self_fp = sc.fingerprint(base)
         self_viol = sc.check(base)
+    try:
+        self_viol = list(self_viol) + list(sc.check_state(base))
+    except Exception as e:  # noqa
+        import traceback
+
+        self_viol = list(self_viol) + [
+            ("harness-error:check_state:" + type(e).__name__,
+             traceback.format_exc()[-600:])]
+    base = sc.materialise(init, history)
     ops = sc.ops(base)
     for op in ops:
         w = sc.materialise(init, history)
@@ -273,7 +292,7 @@ def _expand(task):
             counters[c] += 1
         counters["op:" + str(op[0])] += 1
         out.append((op, fp, sc.prefix_ok(op) and not v, _cap(v)))
-    return init, history, self_fp, self_viol, out, counters
+    return init, history, self_fp, _cap(self_viol), out, counters
 
 
 def reproduce(sc, init, history, op, signature, times=3):
@@ -295,7 +314,7 @@ def reproduce(sc, init, history, op, signature, times=3):
 
 def explore(ctx, sc, max_depth=None, state_cap=None, label=None):
     """Level-synchronous BFS.  Returns coverage dict."""
-    _set_scenario(sc)
+    _set_scenario(sc, ctx.prop)
     common.close_pool()  # workers must see the scenario (fork after set)
     seen = {}
     frontier = []
@@ -325,9 +344,9 @@ def explore(ctx, sc, max_depth=None, state_cap=None, label=None):
         ):
             n_done += 1
             counters.update(cnt)
-            if self_fp is not None:
-                if self_fp not in seen:
-                    seen[self_fp] = (init, history)
+            if self_fp is not None and self_fp not in seen:
+                seen[self_fp] = (init, history)
+            if True:
                 for sig, detail in self_viol:
                     if not sig.startswith(ctx.prop + "/"):
                         other_prop_viol[sig.split("/")[0]] += 1
